@@ -372,6 +372,9 @@ func generate(cfg *hx.Config, emit func(string, []string)) {
 		cfg.CountN(fmt.Sprintf("cross-size=%d-forms(each on body and static)", sf.size), len(fs))
 	}
 
+	// 2c. the configured root as a dimension
+	rootCases(cfg, emit, rng.Fork(), cfg.Thorough())
+
 	// 3. static.Modifier: hostile and detouring targets, with and without Range
 	fileSize := map[string]int{"/a.txt": 10, "/sub/b.html": 300, "/big.bin": 65536, "/empty.bin": 0, "/one.bin": 1, "/k4.bin": 4096}
 	for k := 0; k < 900*mul; k++ {
@@ -416,6 +419,46 @@ func generate(cfg *hx.Config, emit func(string, []string)) {
 		cfg.Count("kind=STATIC-" + mode)
 		cfg.Count(fmt.Sprintf("static-huge-number=%d", big))
 		emit("static", []string{"STATIC", mode, hx.HexS(tg), "200", hdrTok(h, has), ex})
+	}
+}
+
+// rootCases: configured root x request target, both through NewModifier and
+// through the JSON configuration.
+func rootCases(cfg *hx.Config, emit func(string, []string), rng *hx.RNG, thorough bool) {
+	roots := []string{"", ".", "./", "root", "./root", "root/", "root//", "root/.", "nodir/../root", "root/sub/..",
+		"root/sub", "root/sub/", "a/../root//sub/./", "{T}/root", "{T}/root/", "{T}//root/./", "{T}/root/sub/..", "{T}", "{T}/",
+		"{T}/root/sub/deep/../..", "./.", ".//", "nosuchdir", "{O}"}
+	targets := []string{"{O}/secret.txt", "/../../..{O}/secret.txt", "/%2e%2e/%2e%2e{O}/secret.txt", "/..%2f..{O}/secret.txt",
+		"{T}/secret.txt", "{T}/root/a.txt", "/../..{T}/root/a.txt", "/a.txt", "/root/a.txt", "/sub/b.html", "/root/sub/b.html",
+		"/b.html", "/secret.txt", "/../secret.txt", "/%2e%2e/secret.txt", "/root/../secret.txt", "/etc/passwd",
+		"/../../../../../../etc/passwd", "/", "//root//a.txt", "/./root/./a.txt", "/deep/c.json", "http://example.com{O}/secret.txt"}
+	hdrs := []string{"-", "-", hx.HexS("bytes=0-3"), hx.HexS("bytes=-5,0-0"), hx.HexS("bytes=2-")}
+	k := 0
+	for _, rt := range roots {
+		for _, tg := range targets {
+			k++
+			via := "NEW"
+			if k%3 == 0 {
+				via = "JSON"
+			}
+			h := hdrs[rng.Intn(len(hdrs))]
+			if !thorough && k%2 == 0 && rt != "" && rt != "." {
+				continue
+			}
+			emit("root", []string{"ROOT", via, hx.HexS(rt), hx.HexS(tg), "200", h})
+			cfg.Count("root-via=" + via)
+			if thorough {
+				for _, h2 := range hdrs[1:] {
+					emit("root", []string{"ROOT", "JSON", hx.HexS(rt), hx.HexS(tg), "200", h2})
+				}
+			}
+		}
+		cfg.Count("root=" + rt)
+	}
+	for _, tg := range targets {
+		emit("root", []string{"ROOT", "JSONMISSING", "x", hx.HexS(tg), "200", hdrs[rng.Intn(len(hdrs))]})
+		emit("root", []string{"ROOT", "JSON", "x", hx.HexS(tg), "200", hdrs[rng.Intn(len(hdrs))]})
+		cfg.CountN("root-via=JSONMISSING/JSON-empty", 2)
 	}
 }
 
